@@ -1249,8 +1249,10 @@ impl Translator {
 
                 let SolvedType::Function(_, out) = fn_branch_ty else { unreachable!() };
                 let SolvedType::Nominal(_control_flow, args) = &**out else { unreachable!() };
-                let output_ty = &args[1];
-                if output_ty == &SolvedType::Void {
+                // in a generic function the output type may be instantiated with void
+                let output_ty = args[1].subst(mono);
+                if output_ty == SolvedType::Void {
+                    // drop the dummy payload of `Continue`
                     self.emit(st, Instr::Pop);
                 }
             }
